@@ -372,6 +372,13 @@ func (v *FnV) callWithArgs0(st *State, call *ast.CallExpr, preArgs []Value, ci *
 				return res
 			}
 		}
+		if _, ok := v.fc.Extra["purefv"]; ok {
+			// declared assumption: the function values this function calls (configuration
+			// callbacks, iterators) do not write the heap; they may still run the closures handed to them
+			v.c.trusted[v.name+": function values called here are assumed not to write the heap (purefv)"] = true
+			v.escapeClosures(st, args)
+			return v.havocResults(st, call, "fv")
+		}
 		v.callWriteCheck(st, call, "an unknown function value", false)
 		v.abstract(call, "call of function value (havoc)")
 		v.escapeClosures(st, args)
@@ -1088,6 +1095,33 @@ func (v *FnV) appendBuiltin(st *State, call *ast.CallExpr, preArgs []Value, rt t
 		newLen = sAdd(newLen, sl2)
 	}
 	st.setHeap(name, sStore(st.heaps[name], ref, na))
+	if st.ghost != nil && len(call.Args) > 0 {
+		// log kind "append:<variable>": appends to that variable (first appended element = callarg)
+		if id, ok := unparen(call.Args[0]).(*ast.Ident); ok {
+			if v.logKind("append:"+id.Name) >= 0 {
+				v.logCall(st, &callInfo{full: "append:" + id.Name, args: extra}, nil)
+			}
+			// "append:<variable>.<field>": elements are pointers to structs; callarg is the appended
+			// pointer and callarg1 the value of that field at the time of the append
+			for _, k := range v.logKinds {
+				pre := "append:" + id.Name + "."
+				if !strings.HasPrefix(k, pre) || len(extra) != 1 {
+					continue
+				}
+				pt, ok := extra[0].T.Underlying().(*types.Pointer)
+				if !ok {
+					continue
+				}
+				path, ft, ok := findField(pt.Elem(), k[len(pre):])
+				if !ok || len(path) != 1 {
+					continue
+				}
+				sv := v.load(st, v.substT(pt.Elem()), extra[0].S)
+				fv := Value{T: ft, S: v.c.fieldGet(v.substT(pt.Elem()), sv, path[0])}
+				v.logCall(st, &callInfo{full: k, args: []Value{extra[0], fv}}, nil)
+			}
+		}
+	}
 	res := v.c.freshName("appended")
 	st.declare(res, sortSlice)
 	st.assume(sAnd(sEq(sx("sref", res), ref), sEq(sx("sloff", res), "0"), sEq(sx("sllen", res), newLen), sLe(newLen, sx("slcap", res))))
